@@ -601,11 +601,66 @@ impl Part for CancelStorm {
     }
 }
 
+// ---------------------------------------------------------------- first requests of a peer arriving on several threads at once
+
+#[derive(Clone, Debug, Serialize, Deserialize, PartialEq, Eq, Hash)]
+pub struct FirstContact {
+    pub max: u8,
+    pub threads: u8,
+    pub rounds: u16,
+    pub block: bool,
+}
+
+pub struct FirstContactRace;
+impl Part for FirstContactRace {
+    type Case = FirstContact;
+    fn name(&self) -> &'static str { "first-contact-race" }
+    fn deterministic(&self) -> bool { false }
+    fn rule(&self) -> &'static str {
+        "per round a peer the layer has never seen; 2-8 OS threads released by a barrier each hand one request of that peer to a clone of the layered service and poll it once; the requests stay in the service; oracle: the number of that peer's requests inside the service never exceeds max (1-3); real threads, sampled interleavings; non-trivial = every case; distinct by case"
+    }
+    fn strategy(&self, _t: Tier) -> BoxedStrategy<FirstContact> {
+        (1u8..4, 2u8..9, 100u16..600, any::<bool>()).prop_map(|(max, threads, rounds, block)| FirstContact { max, threads, rounds, block }).boxed()
+    }
+    fn run(&self, c: &FirstContact, obs: &mut Obs) -> Result<(), Fail> {
+        let max = c.max as usize;
+        let mode = if c.block { WaitMode::Block } else { WaitMode::ReturnError };
+        let shared = Arc::new(Mutex::new(Shared { max: max as i64, ..Default::default() }));
+        let svc = InflightLimitLayer::new(max, mode).layer(Inner(shared.clone()));
+        for round in 0..c.rounds as u32 {
+            let barrier = Arc::new(std::sync::Barrier::new(c.threads as usize));
+            let handles: Vec<_> = (0..c.threads).map(|t| {
+                let (mut svc, barrier) = (svc.clone(), barrier.clone());
+                std::thread::spawn(move || {
+                    let waker = futures::task::noop_waker();
+                    let mut cx = Context::from_waker(&waker);
+                    let id = round as u64 * 16 + t as u64;
+                    // the gauge is per tag: one tag per round (= per fresh peer)
+                    let req = Request::new(Bytes::new()).with_header("id", id.to_string()).with_header("peer", (round % 200).to_string()).with_extension(wide_peer_id(5_000_000 + round));
+                    barrier.wait();
+                    let mut fut = Service::call(&mut svc, req);
+                    let _ = fut.as_mut().poll(&mut cx);
+                    fut
+                })
+            }).collect();
+            let futs: Vec<_> = handles.into_iter().filter_map(|h| h.join().ok()).collect();
+            let over = shared.lock().unwrap().over_limit.clone();
+            if let Some(m) = over { vfail!("c18:over-limit", "round {round}: {} threads handed the first requests of a new peer to the service at the same time: {m}", c.threads); }
+            drop(futs);
+            // the tag is reused 200 rounds later: by then the gauge is back to zero
+        }
+        obs.evals(c.rounds as u64 * c.threads as u64);
+        obs.nontrivial(c);
+        Ok(())
+    }
+}
+
 pub fn run(tier: Tier) -> i32 {
     let mut ctx = Ctx::new("C18", tier);
     ctx.assume("tokio's Semaphore and dashmap are trusted; the harness owns every poll of the request futures (no-op waker), so interleavings are generated, not sampled; a tokio context is present and tasks the implementation may spawn are run to quiescence after every step");
     ctx.run_part(Histories, tier.pick(40_000, 20_000_000));
     ctx.run_part(ManyPeers, tier.pick(300, 60_000));
     ctx.run_part(CancelStorm, tier.pick(400, 60_000));
+    ctx.run_part_threads(FirstContactRace, tier.pick(24, 400), 2);
     ctx.finish()
 }
